@@ -1,0 +1,49 @@
+//go:build verif
+
+package test
+
+// Hooks for the external verification harness (/verif, property C05). Only
+// compiled with `-tags verif`; adds accessors for unexported state and
+// changes no behaviour of the package.
+
+import (
+	"github.com/9elements/converged-security-suite/v2/pkg/tools"
+	"github.com/google/go-tpm/legacy/tpm2"
+	"github.com/linuxboot/fiano/pkg/intel/metadata/fit"
+)
+
+// ResetTXTRegsForC05Verif drops the cached copy of the TXT register space.
+func ResetTXTRegsForC05Verif() { txtRegisterValues = nil }
+
+// SetBIOSDataForC05Verif sets the cached BIOS data region.
+func SetBIOSDataForC05Verif(d tools.TXTBiosData) { biosdata = d }
+
+// SetFITStateForC05Verif sets the cached FIT pointer and table.
+func SetFITStateForC05Verif(ptr uint32, tbl fit.Table) {
+	fitPointer = ptr
+	fitHeaders = tbl
+}
+
+// FITStateForC05Verif returns the cached FIT pointer and table.
+func FITStateForC05Verif() (uint32, fit.Table) { return fitPointer, fitHeaders }
+
+// CheckTPM2NVAttrForC05Verif calls checkTPM2NVAttr.
+func CheckTPM2NVAttrForC05Verif(mask, want, optional uint32) bool {
+	return checkTPM2NVAttr(tpm2.NVAttr(mask), tpm2.NVAttr(want), tpm2.NVAttr(optional))
+}
+
+// NVConstsForC05Verif are the NV index constants of tpm.go.
+type NVConstsForC05Verif struct {
+	PS12Index, AUX12Index, PO12Index uint32
+	PS20Index, AUX20Index, PO20Index uint32
+	PS20Attr                         uint32
+}
+
+// GetNVConstsForC05Verif returns the NV index constants of tpm.go.
+func GetNVConstsForC05Verif() NVConstsForC05Verif {
+	return NVConstsForC05Verif{
+		PS12Index: tpm12PSIndex, AUX12Index: tpm12AUXIndex, PO12Index: tpm12POIndex,
+		PS20Index: tpm20PSIndex, AUX20Index: tpm20AUXIndex, PO20Index: tpm20POIndex,
+		PS20Attr: uint32(tpm20PSIndexAttr),
+	}
+}
